@@ -6,5 +6,5 @@ Init == k \in Kinds /\ s \in Shapes /\ p \in Positions
 Next == UNCHANGED <<k, s, p>>
 Spec == Init /\ [][Next]_<<k, s, p>>
 InvTableSane == TableSane
-Emit == PrintT(<<"XSHAPE", ToJson([kind |-> k, shape |-> s, pos |-> p, canonical |-> Canonical(k, s), strictFail |-> MustFailStrict(k, s)])>>)
+Emit == PrintT(<<"XSHAPE", ToJson([kind |-> k, shape |-> s, pos |-> p, canonical |-> Canonical(k, s), strictFail |-> MustFailStrict(k, s), unconvertible |-> Unconvertible(k, s)])>>)
 =============================================================================
